@@ -7,7 +7,7 @@ From GoCar Require Import Bytes Varint Cid Header Frame V2Header Scan Val RunSca
    srckind: 0 bytes.Reader, 1 *os.File, 2 plain io.Reader (counting, chunked),
             3 counting Read+ReadByte+Seek, 4 counting Read+Seek.
    The high-water mark is observable for kinds 2..4 only (printed as 0 otherwise).
-   expect: (tvalid blocks base payload_len) | (tnone) *)
+   expect: (tvalid blocks base payload_len) | (ttrunc nonboundary) | (tnone) *)
 Definition brpos_seek (k : N) : bool := negb (k =? 2).
 Definition brpos_hwobs (k : N) : bool := 2 <=? k.
 
@@ -120,4 +120,10 @@ Definition prop_brpos (input obs : val) : val :=
         then (if is_tag (vnth 0 endv) "err" && is_tag (vnth 1 endv) "eof" then VT "ok" else fail1 "end-not-eof")
         else (if is_tag (vnth 0 endv) "stop" then VT "ok" else fail1 "early-end")
       end
+  else if is_tag (vnth 0 expect) "trunc" then
+    (* the file is a proper prefix of a valid archive, cut strictly inside the header or a
+       section (C02's truncation clause, for the walker C02's own check does not drive) *)
+    if opened && vbool (vnth 1 expect) && is_tag (vnth 1 endv) "eof"
+    then VL [VT "FAIL"; VT "truncation-reported-as-clean-eof"; VT "skipnext-after-length-varint"]
+    else VT "ok"
   else VT "ok".
